@@ -1390,8 +1390,9 @@ class _NamedExprRule(_CheckAssignmentRule):
         def search_all_comp_ancestors(node):
             has_ancestors = False
             while True:
-                node = node.search_ancestor('testlist_comp', 'dictorsetmaker')
-                if node is None:
+                node = node.search_ancestor('testlist_comp', 'dictorsetmaker', 'lambdef')
+                if node is None or node.type == 'lambdef':
+                    # A lambda is a scope of its own.
                     break
                 for child in node.children:
                     if child.type in _COMP_FOR_TYPES:
@@ -1403,7 +1404,8 @@ class _NamedExprRule(_CheckAssignmentRule):
         # check assignment expressions in comprehensions
         search_all = search_all_comp_ancestors(namedexpr_test)
         if search_all:
-            if self._normalizer.context.node.type == 'classdef':
+            if self._normalizer.context.node.type == 'classdef' \
+                    and not _is_in_lambda_body(namedexpr_test):
                 message = 'assignment expression within a comprehension ' \
                           'cannot be used in a class body'
                 self.add_issue(namedexpr_test, message=message)
